@@ -32,13 +32,16 @@ def place_demo(d, name):
         return f'{build} && bash {d}/demo.sh {WT}/target/debug/risinglight', lambda: None
     if os.path.exists(os.path.join(d, 'run_demo.sh')):
         return f'{build} && BIN={WT}/target/debug/risinglight sh {d}/run_demo.sh', lambda: None
+    if not os.path.exists(os.path.join(d, 'demo.rs')) and os.path.exists(os.path.join(d, 'demo.slt')):
+        # a sqllogictest script for the CLI on a fresh on-disk database
+        return f'{build} && rm -rf {WT}/_demo_db && {WT}/target/debug/risinglight {WT}/_demo_db -f {d}/demo.slt', lambda: shutil.rmtree(os.path.join(WT, '_demo_db'), ignore_errors=True)
     demo = open(os.path.join(d, 'demo.rs')).read()
     m = re.search(r'(src/\S+?\.rs)', '\n'.join(demo.split('\n')[:6]))
-    if name.startswith('C06') and m and name not in ('C06-1', 'C06-2', 'C06-3', 'C06-4', 'C06-5', 'C06-6'):
+    if name.startswith('C06') and m and 'append' in '\n'.join(demo.split('\n')[:6]) and name not in ('C06-1', 'C06-2', 'C06-3', 'C06-4', 'C06-5', 'C06-6'):
         target, filt = m.group(1), re.search(r'^mod (\w+)', demo, flags=re.M).group(1)
         open(os.path.join(WT, target), 'a').write('\n' + demo)
         return f'cargo test --offline -j 8 --lib {filt}', lambda: sh(f'git checkout -- {target}')
-    if name.startswith('C06'):
+    if name in ('C06-1', 'C06-2', 'C06-3', 'C06-4', 'C06-5', 'C06-6'):
         # the C06 demos are #[cfg(test)] modules appended to a source file named in their demo.md
         target, filt = {'C06-1': ('src/storage/secondary/block.rs', 'c06_demo_1'), 'C06-2': ('src/storage/secondary/block.rs', 'c06_demo_2'),
                         'C06-3': ('src/storage/secondary/block/char_block_iterator.rs', 'c06_full_width'),
